@@ -61,6 +61,8 @@ def _isinstance(ex, st, args, kwargs, text):
     for k in ts:
         if isinstance(k, type) and k not in ops.BUILTIN_TYPE_IDS and k is not object:
             C.register(k)
+            if z3.is_expr(v):
+                ex.isinst_cands.setdefault(v.get_id(), []).append(k)
     return [(st, ("val", V.VBool(ops.isinstance_formula(v, ts, C.subclass, C.cls_of))))]
 
 
@@ -192,6 +194,9 @@ def _bool(ex, st, args, kwargs, text):
     return [(st, ("val", V.VBool(ex.truthy(v))))]
 
 
+_LIT_TYPES = {"VNone": type(None), "VBool": bool, "VInt": int, "VFloat": float, "VStr": str, "VBytes": bytes}
+
+
 @ctor(type)
 def _type(ex, st, args, kwargs, text):
     from .symexec import Meta
@@ -200,7 +205,12 @@ def _type(ex, st, args, kwargs, text):
     v = args[0]
     if isinstance(v, Meta):
         return [(st, ("val", Meta(type(v.py))))]
+    lit = z3.simplify(v)
+    if z3.is_app(lit) and lit.decl().name() in _LIT_TYPES:
+        return [(st, ("val", Meta(_LIT_TYPES[lit.decl().name()])))]
     pycls = st.typeof(v)
+    if pycls is not None:
+        st.assume(C.subclass(C.cls_of(Val.ref(v)), pycls))
     tv = V.VType(ops.type_id(v, C.cls_of))
     return [(st, ("val", tv))]
 
